@@ -107,7 +107,7 @@ def record_abs(tid, inst, cf, ops, unique, want_aux):
         if op == 'extend' and not widened and not o['exc'] and 'C08' in want_aux:
             aux['oneshot'] = aux_of(inst, cur, n)
         ev = {'op': op, 'arg': arg, 'w': W, 'unique': unique, 'exc': o['exc'], 'states': o['states'] or [],
-              'idx': o['idx'], 'early': o['early'], 'path': o['path'], 'lat': o['lat'], 'now': o['now'],
+              'idx': o['idx'], 'early': o['early'], 'path': o['path'], 'pstamp': o['pstamp'], 'partial': o['partial'], 'lat': o['lat'], 'now': o['now'],
               'onlynodes': o['onlynodes'], 'onlynodes_exc': o['onlynodes_exc'], 'snaps': sn.take(), 'aux': aux,
               'dangling': o.get('dangling', [])}
         if o['states'] is None and not o['exc']:
@@ -422,6 +422,16 @@ def run(chk):
             cf['debug'] = True      # package logger at DEBUG: stopped candidates are materialised in the lattice
         tid += 1
         runs.append(record_abs(tid, inst, cf, ops, unique=rng.random() < 0.4, want_aux=plan['aux']))
+    if pid == 'C02':
+        # the recorded instance of finding F-stale (integer tables) is part of every run: it must keep matching the
+        # finding's signature (and nothing else)
+        fp = os.path.join(common.VERIF, 'findings', 'F-stale-abs.replay.json')
+        if os.path.exists(fp):
+            with open(fp) as f:
+                fc = json.load(f)['case']
+            tid += 1
+            runs.append(record_abs(tid, absm.inst_from_tlc(fc['inst']), fc['cf'], [tuple(o) for o in fc['ops']],
+                                   unique=False, want_aux=plan['aux']))
     # 3. trace validation in batches.  Conformance with the specification's own lattice (DRIFT, a
     #    diagnostic) is computed for every TLC-enumerated behaviour and, in the quick tier, for the
     #    first 120 (thorough: 1500) random runs (the specification's big-step evaluation dominates the cost).
@@ -437,12 +447,18 @@ def run(chk):
         for run_ in batch:
             v = verdicts[run_['tid']]
             for x in v.get(pid, []):
+                sig = abs_sig(run_, x)
+                if x['clause'] == 'path-score-stale-after-expansion':
+                    # F-stale is behaviour the specification itself has: the case is attributed to the finding only if
+                    # Lattice.DoMatch reproduces the recorded lattice (and scoring rounds) of this very history
+                    vd = v if 'DRIFT' in want else validate(chk, [run_], {'DRIFT'}, f'{pid}_stale')[run_['tid']]
+                    sig['specification_reproduces_lattice'] = not vd.get('DRIFT')
                 chk.violation(f'recorded run rejected at event {x["at"]} '
                               f'({run_["events"][x["at"] - 1]["op"]} {run_["events"][x["at"] - 1]["arg"]}): clause {x["clause"]}',
                               {'kind': 'abs', 'inst': run_['inst'], 'cf': run_['cf'],
                                'ops': [[e['op'], e['arg']] for e in run_['events']],
                                'unique': run_['events'][0]['unique'], 'clause': x['clause'], 'at': x['at']},
-                              sig={'clause': x['clause']})
+                              sig=sig)
             for x in v.get('DRIFT', []):
                 chk.spec_drift(f'run {run_["tid"]}: {x["clause"]} at event {x["at"]}')
     # 4. the real Simple / Distance matchers on geometric instances
@@ -505,7 +521,7 @@ def record_geo(tid, inst, cf, ops, unique, want_aux):
                 aux['wide'] = geo_aux(inst, dict(cur, W=1000), n, conc)
         if op == 'extend' and not widened and not o['exc'] and 'C08' in want_aux:
             aux['oneshot'] = geo_aux(inst, cur, n, conc)
-        ev = {k: o[k] for k in ('op', 'arg', 'w', 'unique', 'exc', 'states', 'idx', 'early', 'path', 'lat', 'now',
+        ev = {k: o[k] for k in ('op', 'arg', 'w', 'unique', 'exc', 'states', 'idx', 'early', 'path', 'pstamp', 'partial', 'lat', 'now',
                                 'onlynodes', 'onlynodes_exc', 'snaps')}
         ev['aux'] = aux
         ev['dangling'] = absm_dangling_geo(m) if o is evs[-1] else []
@@ -588,7 +604,7 @@ def oracle_part(chk, rng, n):
         itab, scf = geom.extract_tables(inst, cf)
         evs, m = geom.run_geo(inst, cf, geom.Conc(), full=True)
         o = evs[0]
-        ev = {k: o[k] for k in ('op', 'arg', 'w', 'unique', 'exc', 'states', 'idx', 'early', 'path', 'lat', 'now',
+        ev = {k: o[k] for k in ('op', 'arg', 'w', 'unique', 'exc', 'states', 'idx', 'early', 'path', 'pstamp', 'partial', 'lat', 'now',
                                 'onlynodes', 'onlynodes_exc', 'snaps')}
         ev['aux'] = {'neoff': NOAUX, 'unpruned': NOAUX, 'wide': NOAUX, 'oneshot': NOAUX}
         ev['dangling'] = []
@@ -664,12 +680,35 @@ def model_part(chk, pid, rng, n):
         inst = geom.gen_instance(rng, maxn=6, maxT=5, G=rng.choice([2, 3, 4]))
         cf = geom.gen_config(rng)
         ops = geo_ops(rng, len(inst['path']), cf, ('extend', 'widen') if i % 3 == 0 else ())
+        if pid == 'C02' and i % 6 == 5:
+            # expansion stress: a narrow lattice with non-emitting states, widened / extended several times
+            cf.update(ne=True, W=rng.choice([1, 1, 2, 3]))
+            T = len(inst['path'])
+            kk, w = rng.randint(min(2, T), T), cf['W']
+            ops = [('match', kk)]
+            for _ in range(rng.randint(1, 3)):
+                if kk < T and rng.random() < 0.5:
+                    kk = rng.randint(kk + 1, T)
+                    ops.append(('extend', kk))
+                else:
+                    w += rng.randint(1, 2)
+                    ops.append(('widen', w))
         k = -14 if i % 4 == 1 else 0
         rec, exc = geom.model_record(200000 + i, inst, cf, ops, k=k)
         if rec is None:
             continue
         recs.append(rec)
         meta[rec['tid']] = (inst, cf, ops)
+    fp = os.path.join(common.VERIF, 'findings', 'F-stale.replay.json')
+    if pid == 'C02' and os.path.exists(fp):          # the recorded instance of finding F-stale is part of every run
+        with open(fp) as f:
+            fc = json.load(f)['case']
+        finst = dict(fc['inst'], coord={int(a): b for a, b in fc['inst']['coord'].items()})
+        fops = [tuple(o) for o in fc['ops']]
+        rec, exc = geom.model_record(200000 + n, finst, fc['cf'], fops)
+        if rec is not None:
+            recs.append(rec)
+            meta[rec['tid']] = (finst, fc['cf'], fops)
     path = os.path.join(common.scratch(), f'models_{pid}.json')
     with open(path, 'w') as f:
         json.dump(common.nonull({'runs': recs}), f)
@@ -695,8 +734,12 @@ def model_part(chk, pid, rng, n):
             chk.violation(f'real {cf["cls"]} matcher, {where} state {e["st"]} obs {e["obs"]} ne {e["ne"]}: {clause}',
                           {'kind': 'model', 'inst': inst, 'cf': cf, 'ops': [list(o) for o in ops], 'clause': clause,
                            'entry': e, 'prev': rec['entries'][e['prev'] - 1] if e['prev'] else None},
-                          sig={'clause': clause, 'where': where, 'after_widening': any(o[0] == 'widen' for o in ops)})
+                          sig=model_sig(v, clause, where, ops))
             break
+        if rec['fresh'] and not v.get('fresh_order', True):
+            print(f'SPEC-DRIFT models run={rec["tid"]}: in a single pass an entry was scored before its predecessor was final '
+                  f'(Models.FreshOrder)', flush=True)
+            chk.cov['fresh_order_drift'] = chk.cov.get('fresh_order_drift', 0) + 1
     chk.count('model-validated-runs', evaluations=len(recs), nontrivial=nontriv, traces=len(recs),
               lattice_entries=sum(len(x['entries']) for x in recs))
 
@@ -718,6 +761,26 @@ def slim_run(run_):
     return None
 
 
+def abs_sig(run_, x):
+    return {'clause': x['clause'],
+            'after_expansion_call': any(e['op'] != 'match' for e in run_['events'][:x['at']]),
+            'predecessor_replaced_after_scoring': x['clause'] == 'path-score-stale-after-expansion',
+            'in_place_replacements_complete': x['clause'] == 'path-score-stale-after-expansion'
+                                              or not any(e.get('partial') for e in run_['events'][:x['at']])}
+
+
+def model_sig(v, clause, where, ops):
+    return {'clause': clause, 'where': where, 'after_widening': any(o[0] == 'widen' for o in ops),
+            'after_expansion_call': any(o[0] in ('widen', 'extend', 'rematch', 'cwd') for o in ops),
+            # Models.tla: the predecessor was replaced in place, in an expansion round, after this entry was scored
+            # (signature of F-stale)
+            'predecessor_replaced_after_scoring': bool(where == 'best path' and v.get('path_stale')
+                                                       and v.get('path_stale_round', 0) >= 1),
+            # every in-place replacement took all model fields from the winning candidate (Lattice.Upsert)
+            'in_place_replacements_complete': bool(v.get('replacements_complete', True)),
+            'specification_reproduces_lattice': 'n/a (real scoring models: no table-level lattice)'}
+
+
 def replay(pid, case):
     c = case['case']
     chk = common.Check(pid, 'quick', 0)
@@ -733,6 +796,11 @@ def replay(pid, case):
         v = r.json[0]
         bad = v['path_clause'] or v['any_clause']
         if bad and not (pid == 'C05' and bad not in MODEL_GEOMETRY):
+            k = chk.match_known(model_sig(v, bad, 'best path' if v['path_clause'] else 'lattice entry', c['ops']))
+            if k is not None:
+                print(f"KNOWN-FINDING: property={pid} {k['id']}: {k['what']}")
+                print('replay: only recorded findings')
+                return 0
             print(f'VIOLATION property={pid} replay=(given)   # {bad}')
             return 1
         print('replay: every lattice entry conforms to the documented model')
@@ -747,7 +815,7 @@ def replay(pid, case):
             itab, scf = geom.extract_tables(inst, c['cf'])
             evs, m = geom.run_geo(inst, c['cf'], geom.Conc(), full=True)
             o = evs[0]
-            ev = {k: o[k] for k in ('op', 'arg', 'w', 'unique', 'exc', 'states', 'idx', 'early', 'path', 'lat', 'now',
+            ev = {k: o[k] for k in ('op', 'arg', 'w', 'unique', 'exc', 'states', 'idx', 'early', 'path', 'pstamp', 'partial', 'lat', 'now',
                                     'onlynodes', 'onlynodes_exc', 'snaps')}
             ev['aux'] = {'neoff': NOAUX, 'unpruned': NOAUX, 'wide': NOAUX, 'oneshot': NOAUX}
             ev['dangling'] = []
@@ -773,7 +841,10 @@ def replay(pid, case):
     v = validate(chk, [run_], {pid}, 'replay')[1]
     bad = 0
     for x in v.get(pid, []):
-        k = chk.match_known({'clause': x['clause']})
+        sig = abs_sig(run_, x)
+        if x['clause'] == 'path-score-stale-after-expansion':
+            sig['specification_reproduces_lattice'] = not validate(chk, [run_], {'DRIFT'}, 'replay_stale')[1].get('DRIFT')
+        k = chk.match_known(sig)
         if k is not None:
             print(f"KNOWN-FINDING: property={pid} {k['id']}: {k['what']}")
         else:
